@@ -15,6 +15,9 @@ import (
 // C14 — transport failure yields a clean prefix and then an error.
 
 type c14Plan struct {
+	// Bystander: another goroutine waits in a blocking receive on a second channel of the connection (nothing is
+	// sent to it): the failure of the transport must reach it as well, within the same bound.
+	Bystander bool `json:"bystander,omitempty"`
 	Entries      []string `json:"entries,omitempty"`
 	Cuts         []int    `json:"cuts,omitempty"`
 	K            int      `json:"k"`    // bytes of the wire stream delivered before the failure
@@ -146,6 +149,9 @@ func (c14) Gen(r *Rand, idx int, tier string) interface{} {
 			if idx%4 == 3 {
 				p.QueueSize = []int{1, 2, -1}[(idx/4)%3] // -1: unbuffered
 			}
+			if idx%9 == 4 && !strings.HasPrefix(p.Kind, "transient") && p.Kind != "eof-gap" && p.PollMs == 0 {
+				p.Bystander = true
+			}
 			if idx%6 == 1 && p.Kind != "eof-with-data" && !strings.HasPrefix(p.Kind, "transient") && p.Kind != "eof-gap" {
 				p.FailDelayMs = []int{500, 1000, 2000, 10000}[(idx/6)%4] * p.ReadTimeoutS / 2
 			}
@@ -227,7 +233,7 @@ func (c14) Run(plan interface{}, schedSeed uint64, replay []simrt.Choice, lenien
 		return c14RunTransient(p, v, cfg, base, pk, wire, drain)
 	}
 	got := runResp(cfg, respDelivery{Packets: pk, TermAt: p.K, TermKind: term, TermWithData: withData, Async: p.Async, TermDelay: time.Duration(p.FailDelayMs) * time.Millisecond},
-		respClient{QueueSize: c14Queue(p), ReadTimeoutS: p.ReadTimeoutS, DrainFor: drain, ReadSizes: c14ReadSizes(p.ReadSize, len(wire)), MaxErrs: 10, PollEvery: time.Duration(p.PollMs) * time.Millisecond})
+		respClient{QueueSize: c14Queue(p), ReadTimeoutS: p.ReadTimeoutS, DrainFor: drain, ReadSizes: c14ReadSizes(p.ReadSize, len(wire)), MaxErrs: 10, PollEvery: time.Duration(p.PollMs) * time.Millisecond, Bystander: p.Bystander})
 	out := got.Out
 	StdOutcome(v, base.Out)
 	StdOutcome(v, out)
@@ -346,10 +352,19 @@ func (c14) Run(plan interface{}, schedSeed uint64, replay []simrt.Choice, lenien
 			cfg2 := cfg
 			cfg2.Replay, cfg2.Lenient, cfg2.KeepLog = out.Tape, false, true
 			again := runResp(cfg2, respDelivery{Packets: pk, TermAt: p.K, TermKind: term, TermWithData: withData, Async: p.Async, TermDelay: time.Duration(p.FailDelayMs) * time.Millisecond},
-				respClient{QueueSize: c14Queue(p), ReadTimeoutS: p.ReadTimeoutS, DrainFor: drain, ReadSizes: c14ReadSizes(p.ReadSize, len(wire)), MaxErrs: 10, PollEvery: time.Duration(p.PollMs) * time.Millisecond})
+				respClient{QueueSize: c14Queue(p), ReadTimeoutS: p.ReadTimeoutS, DrainFor: drain, ReadSizes: c14ReadSizes(p.ReadSize, len(wire)), MaxErrs: 10, PollEvery: time.Duration(p.PollMs) * time.Millisecond, Bystander: p.Bystander})
 			pkgSends, errSend := 0, -1
+			reqAt := -1
+			for _, e := range again.Out.Log {
+				if e.Task == "root" && e.Op == "write" && e.Info != "8" && reqAt < 0 {
+					reqAt = e.Seq // the request: the first thing the client writes that is not a header-only packet
+				}
+			}
 			for _, e := range again.Out.Log {
 				if e.Op != "send" && !(e.Op == "select" && strings.Contains(e.Info, "(send)")) {
+					continue
+				}
+				if e.Seq < reqAt {
 					continue
 				}
 				// sends of the reader task: the ones in Conn.ReadFrom itself queue connection errors, all others
@@ -358,7 +373,7 @@ func (c14) Run(plan interface{}, schedSeed uint64, replay []simrt.Choice, lenien
 					continue
 				}
 				fn := Sites[e.Site].Func
-				if strings.Contains(fn, "(*Conn).ReadFrom") {
+				if strings.Contains(fn, "(*Conn).ReadFrom") || strings.Contains(fn, "(*Conn).queueError") {
 					if errSend < 0 {
 						errSend = pkgSends
 					}
@@ -383,16 +398,24 @@ func (c14) Run(plan interface{}, schedSeed uint64, replay []simrt.Choice, lenien
 					}
 				}
 				for _, e := range again.Out.Log {
-					if e.Seq < errSeq && !strings.HasPrefix(e.Task, "go@") && e.Op == "rlock" && strings.Contains(Sites[e.Site].Func, "(*Channel).NextPackage") {
+					if e.Seq < errSeq && e.Task == "root" && e.Op == "rlock" && strings.Contains(Sites[e.Site].Func, "(*Channel).NextPackage") {
 						callSeq = e.Seq
+					}
+				}
+				// (only what the reader queued after the request went out: the acknowledgement of a further channel's
+				// setup is handed over the same way, before the exchange begins)
+				reqSeq := -1
+				for _, e := range again.Out.Log {
+					if e.Task == "root" && e.Op == "write" && e.Info != "8" && reqSeq < 0 {
+						reqSeq = e.Seq
 					}
 				}
 				queuedAtCall := 0
 				for _, e := range again.Out.Log {
-					if e.Seq >= callSeq || !strings.HasPrefix(e.Task, "go@") {
+					if e.Seq >= callSeq || e.Seq < reqSeq || !strings.HasPrefix(e.Task, "go@") {
 						continue
 					}
-					if (e.Op == "send" || (e.Op == "select" && strings.Contains(e.Info, "(send)"))) && !strings.Contains(Sites[e.Site].Func, "(*Conn).ReadFrom") {
+					if (e.Op == "send" || (e.Op == "select" && strings.Contains(e.Info, "(send)"))) && !strings.Contains(Sites[e.Site].Func, "(*Conn).ReadFrom") && !strings.Contains(Sites[e.Site].Func, "(*Conn).queueError") {
 						queuedAtCall++
 					}
 				}
@@ -426,6 +449,20 @@ func (c14) Run(plan interface{}, schedSeed uint64, replay []simrt.Choice, lenien
 		// (a poll picks at random between "nothing ready" and a queued error, so a polling consumer may find the
 		// error a few polls late: for it only "an error before its own deadline" is judged)
 		v.Violate("late-error", "error later than the read timeout", "%s: failure at t=%v, first error at t=%v, bound %v", where, got.FailedAt, firstErr.Now, bound)
+	}
+	if p.Bystander && v.Class == "" {
+		v.Probe("bystander-on-another-channel")
+		byBound := bound + time.Duration(p.ReadTimeoutS)*time.Second + 2*cost
+		switch {
+		case !got.BystanderDone:
+			v.Violate("no-error", "no error after transport failure: a receive on another channel never returned", "%s: a goroutine waiting on another channel of the connection never returned", where)
+		case got.BystanderPkg != "":
+			v.Violate("wrong-packages", "a package was delivered to a channel nothing was sent to", "%s: the goroutine waiting on another channel received a %s", where, got.BystanderPkg)
+		case strings.Contains(got.BystanderErr, "context deadline exceeded") || strings.Contains(got.BystanderErr, "context canceled"):
+			v.Violate("no-error", "no error after transport failure: a receive on another channel blocked until its own deadline", "%s: the transport failed at t=%v; a goroutine waiting on another channel of the connection only returned when its own context expired at t=%v (read timeout %ds)", where, got.FailedAt, got.BystanderAt, p.ReadTimeoutS)
+		case got.BystanderAt > byBound:
+			v.Violate("late-error", "error later than the read timeout on another channel", "%s: failure at t=%v, the goroutine waiting on another channel got its error at t=%v, bound %v", where, got.FailedAt, got.BystanderAt, byBound)
+		}
 	}
 	// 3. the failure is permanent: every later receive fails as well, in time - none blocks until its own deadline
 	if firstErr != nil && !isCtx(firstErr) {
